@@ -137,7 +137,7 @@ CheckRef(r, T, fx, seen2d) ==
 SetRow1(u, row) == [u EXCEPT !.ref.rows = [@ EXCEPT ![1] = row]]
 Row1(u) == u.ref.rows[1]
 Applicable(u, d) ==
-  CASE d.k \in {"half_s", "half_e", "s_gt_e", "e_over", "s_gt_T"} ->
+  CASE d.k \in {"half_s", "half_e", "s_gt_e", "e_over", "s_gt_T", "short_over"} ->
          hasref /\ u.ref.nd = 2 /\ Len(u.ref.rows) >= 1 /\ Row1(u)[2] >= 0 /\ Row1(u)[3] >= 0
     [] d.k \in {"refdt", "mixed", "cols"} -> hasref
     [] d.k \in {"alilen", "alishort", "alidt", "alind"} -> hasali
@@ -156,6 +156,8 @@ Apply(u, d) ==
     [] d.k = "s_gt_e"   -> SetRow1(u, <<Row1(u)[1], Row1(u)[3] + 1, Row1(u)[3]>>)
     [] d.k = "e_over"   -> SetRow1(u, <<Row1(u)[1], Row1(u)[2], u.T + d.j>>)
     [] d.k = "s_gt_T"   -> SetRow1(u, <<Row1(u)[1], u.T + 1, u.T + d.j>>)
+    \* a token SHORTER than the tolerance that sticks out: starts at the last frame boundary, ends j beyond
+    [] d.k = "short_over" -> SetRow1(u, <<Row1(u)[1], u.T, u.T + d.j>>)
     [] d.k = "mixed"    -> [u EXCEPT !.ref.nd = IF @ = 2 THEN 1 ELSE 2,
                                      !.ref.rows = [q \in 1..Len(@) |-> <<@[q][1], None, None>>]]
     [] d.k = "cols"     -> [u EXCEPT !.ref.cols = 2]
